@@ -147,15 +147,35 @@ class ErrorHandling:
 
     def can_follow(self, prefix, value, token_name):
         # is the token accepted right after the prefix?
-        token = self.make_token(value, token_name)
-        self.parser.error_info = None
-        try:
-            self.parser.parse(iter(prefix + [token]))
-        except Exception:
-            # a grammar action complains about the incomplete statement: can't tell
-            return True
-        error_info = getattr(self.parser, 'error_info', None)
-        return not (error_info is not None and error_info.get('bad_token') is token)
+        # Run the LR automaton over the token types only. The grammar actions are not called: they can reject the
+        # made-up statement for reasons that have nothing to do with the token (and then nothing is known about it)
+        table = self.parser._lrtable
+        productions = self.parser._grammar.Productions
+        types = [token.type for token in prefix] + [token_name]
+
+        states = [0]
+        position = 0
+        while position < len(types):
+            state = states[-1]
+            if state in table.defaulted_states:
+                action = table.defaulted_states[state]
+            else:
+                action = table.lr_action[state].get(types[position])
+
+            if action is None or action == 0:
+                # the token (or one of the prefix) can't be taken
+                return False
+            if action > 0:
+                # shift
+                states.append(action)
+                position += 1
+            else:
+                # reduce
+                production = productions[-action]
+                if production.len:
+                    del states[-production.len:]
+                states.append(table.lr_goto[states[-1]][production.name])
+        return True
 
     def query_is_valid(self, tokens):
         # try to parse list of tokens
